@@ -169,14 +169,14 @@ Lemma P_lengths : length P1 = 61 /\ length P2 = 12 /\ length P3 = 8.
 Proof. repeat split; reflexivity. Qed.
 
 (** kept positions per geometry *)
-Lemma counts : count_true (mask P1 488) = 368 /\ count_true (mask P2 296) = 272 /\
+Lemma mask_counts : count_true (mask P1 488) = 368 /\ count_true (mask P2 296) = 272 /\
                count_true (mask P2 402) = 369 /\ count_true (mask P3 420) = 368 /\ count_true (mask P2 401) = 368.
 Proof. repeat split; reflexivity. Qed.
 
 Lemma mask_bert_split : mask P2 402 = mask P2 401 ++ [true].
 Proof. reflexivity. Qed.
 
-Lemma sites_lemma :
+Lemma puncture_sites_lemma :
   Forall (fun s => In s [(1, 368, 488); (2, 272, 296); (2, 368, 402); (3, 368, 420)]%N) depuncture_sites /\
   Forall (fun s => In s [(1, 488, 368); (2, 296, 272); (2, 402, 368); (3, 420, 368)]%N) puncture_sites /\
   Forall (fun s => In s [(1, 61, 46); (2, 37, 34)]%N) puncture_bytes_sites.
@@ -204,9 +204,9 @@ Proof using HP. intros Hc Hl H1 H2. rewrite (proj1 (geometry_puncture l prev1 lt
   apply spread_keep. unfold mask. rewrite mask_from_length. lia. Qed.
 End Geometry.
 
-Lemma HP1 : 0 < length P1. Proof. cbn; lia. Qed.
-Lemma HP2 : 0 < length P2. Proof. cbn; lia. Qed.
-Lemma HP3 : 0 < length P3. Proof. cbn; lia. Qed.
+Lemma P1_nonempty : 0 < length P1. Proof. cbn; lia. Qed.
+Lemma P2_nonempty : 0 < length P2. Proof. cbn; lia. Qed.
+Lemma P3_nonempty : 0 < length P3. Proof. cbn; lia. Qed.
 
 (** BERT: 369 positions are kept by the matrix, the frame has room for 368: the last kept position, 401, is cut *)
 Lemma bert_keep {A} (d : A) (l : list A) : length l = 402 ->
@@ -229,8 +229,8 @@ Proof. induction m1 as [|b m1 IH]; intros m2 [|x l1] l2 H; try discriminate; [re
 Lemma bert_roundtrip (l prev1 prev2 : list Z) : length l = 402 -> length prev1 = 368 -> length prev2 = 402 ->
   fst (depuncture P2 402 (fst (puncture P2 368 l prev1)) prev2) = erase_unkept 0%Z (mask P2 401 ++ [false]) l.
 Proof. intros Hl H1 H2.
-  rewrite (proj1 (geometry_puncture P2 402 368 HP2 l prev1 ltac:(rewrite (proj1 (proj2 (proj2 counts))); lia) Hl H1)). cbn [fst].
-  destruct (bert_keep 0%Z l Hl) as [_ K]. rewrite K. rewrite depuncture_spec by (exact HP2 || exact H2). cbn [fst].
+  rewrite (proj1 (geometry_puncture P2 402 368 P2_nonempty l prev1 ltac:(rewrite (proj1 (proj2 (proj2 mask_counts))); lia) Hl H1)). cbn [fst].
+  destruct (bert_keep 0%Z l Hl) as [_ K]. rewrite K. rewrite depuncture_spec by (exact P2_nonempty || exact H2). cbn [fst].
   rewrite mask_bert_split.
   assert (L1 : length (firstn 401 l) = 401) by (rewrite firstn_length; lia).
   pose proof (spread_keep_app 0%Z (mask P2 401) (firstn 401 l) [true] [] ltac:(unfold mask; rewrite mask_from_length; lia)) as S.
@@ -253,9 +253,9 @@ Proof. intros HP Hl Hc. rewrite depuncture_spec by assumption. f_equal.
 
 (** the modulator's packed geometries *)
 Lemma c_lsf : 368 <= count_true (mask P1 488).
-Proof. rewrite (proj1 counts). apply le_n. Qed.
+Proof. rewrite (proj1 mask_counts). apply le_n. Qed.
 Lemma c_stream : 272 <= count_true (mask P2 296).
-Proof. rewrite (proj1 (proj2 counts)). apply le_n. Qed.
+Proof. rewrite (proj1 (proj2 mask_counts)). apply le_n. Qed.
 
 Lemma pb_lsf_bits (inp prev : list N) : length prev = 46 ->
   bytes_bits (fst (puncture_bytes_lsf inp prev)) = fst (puncture P1 368 (bytes_bits inp) (bytes_bits prev)).
@@ -268,14 +268,14 @@ Lemma p_lsf_bits (inp prev : list N) : length inp = 61 -> length prev = 46 ->
 Proof. intros Hi Ho.
   assert (Lb : length (bytes_bits inp) = 488) by (rewrite bytes_bits_length, Hi; reflexivity).
   assert (Lp : length (bytes_bits prev) = 368) by (rewrite bytes_bits_length, Ho; reflexivity).
-  exact (proj1 (geometry_puncture P1 488 368 HP1 (bytes_bits inp) (bytes_bits prev) c_lsf Lb Lp)). Qed.
+  exact (proj1 (geometry_puncture P1 488 368 P1_nonempty (bytes_bits inp) (bytes_bits prev) c_lsf Lb Lp)). Qed.
 
 Lemma puncture_bytes_lsf_lemma (inp prev : list N) : length inp = 61 -> length prev = 46 ->
   bytes_bits (fst (puncture_bytes_lsf inp prev)) = keep (mask P1 488) (bytes_bits inp) /\
   snd (puncture_bytes_lsf inp prev) = 368 /\ length (fst (puncture_bytes_lsf inp prev)) = 46.
 Proof. intros Hi Ho. destruct (pb_lsf_rest inp prev Ho) as [E2 E3]. rewrite (pb_lsf_bits inp prev Ho), E2, (p_lsf_bits inp prev Hi Ho). cbn [fst snd].
   split; [|split; [reflexivity | exact E3]].
-  apply (geometry_exact P1 488 368 HP1 (bytes_bits inp) (proj1 counts)). rewrite bytes_bits_length, Hi. reflexivity. Qed.
+  apply (geometry_exact P1 488 368 P1_nonempty (bytes_bits inp) (proj1 mask_counts)). rewrite bytes_bits_length, Hi. reflexivity. Qed.
 
 Lemma pb_stream_bits (inp prev : list N) : length prev = 34 ->
   bytes_bits (fst (puncture_bytes_stream inp prev)) = fst (puncture P2 272 (bytes_bits inp) (bytes_bits prev)).
@@ -288,14 +288,14 @@ Lemma p_stream_bits (inp prev : list N) : length inp = 37 -> length prev = 34 ->
 Proof. intros Hi Ho.
   assert (Lb : length (bytes_bits inp) = 296) by (rewrite bytes_bits_length, Hi; reflexivity).
   assert (Lp : length (bytes_bits prev) = 272) by (rewrite bytes_bits_length, Ho; reflexivity).
-  exact (proj1 (geometry_puncture P2 296 272 HP2 (bytes_bits inp) (bytes_bits prev) c_stream Lb Lp)). Qed.
+  exact (proj1 (geometry_puncture P2 296 272 P2_nonempty (bytes_bits inp) (bytes_bits prev) c_stream Lb Lp)). Qed.
 
 Lemma puncture_bytes_stream_lemma (inp prev : list N) : length inp = 37 -> length prev = 34 ->
   bytes_bits (fst (puncture_bytes_stream inp prev)) = keep (mask P2 296) (bytes_bits inp) /\
   snd (puncture_bytes_stream inp prev) = 272 /\ length (fst (puncture_bytes_stream inp prev)) = 34.
 Proof. intros Hi Ho. destruct (pb_stream_rest inp prev Ho) as [E2 E3]. rewrite (pb_stream_bits inp prev Ho), E2, (p_stream_bits inp prev Hi Ho). cbn [fst snd].
   split; [|split; [reflexivity | exact E3]].
-  apply (geometry_exact P2 296 272 HP2 (bytes_bits inp) (proj1 (proj2 counts))). rewrite bytes_bits_length, Hi. reflexivity. Qed.
+  apply (geometry_exact P2 296 272 P2_nonempty (bytes_bits inp) (proj1 (proj2 mask_counts))). rewrite bytes_bits_length, Hi. reflexivity. Qed.
 
 (** * statements of the property file *)
 Lemma puncture_general_thm : forall (p : list N) (OUT : nat) (A : Type) (inp prev : list A),
@@ -313,10 +313,10 @@ Lemma puncture_geometries_thm : forall (A : Type) (l prev : list A),
   (length l = 420 -> length prev = 368 ->
      puncture_packet l prev = (firstn 368 (keep (mask P3 420) l), 368) /\ length (firstn 368 (keep (mask P3 420) l)) = 368).
 Proof. intros A l prev. split; [|split; [|split]]; intros Hl Hp.
-- apply (geometry_puncture P1 488 368 HP1 l prev); [rewrite (proj1 counts); apply le_n | exact Hl | exact Hp].
-- apply (geometry_puncture P2 296 272 HP2 l prev); [rewrite (proj1 (proj2 counts)); apply le_n | exact Hl | exact Hp].
-- apply (geometry_puncture P2 402 368 HP2 l prev); [rewrite (proj1 (proj2 (proj2 counts))); apply le_S, le_n | exact Hl | exact Hp].
-- apply (geometry_puncture P3 420 368 HP3 l prev); [rewrite (proj1 (proj2 (proj2 (proj2 counts)))); apply le_n | exact Hl | exact Hp].
+- apply (geometry_puncture P1 488 368 P1_nonempty l prev); [rewrite (proj1 mask_counts); apply le_n | exact Hl | exact Hp].
+- apply (geometry_puncture P2 296 272 P2_nonempty l prev); [rewrite (proj1 (proj2 mask_counts)); apply le_n | exact Hl | exact Hp].
+- apply (geometry_puncture P2 402 368 P2_nonempty l prev); [rewrite (proj1 (proj2 (proj2 mask_counts))); apply le_S, le_n | exact Hl | exact Hp].
+- apply (geometry_puncture P3 420 368 P3_nonempty l prev); [rewrite (proj1 (proj2 (proj2 (proj2 mask_counts)))); apply le_n | exact Hl | exact Hp].
 Qed.
 
 Lemma keep_drops_nothing_thm : forall (A : Type) (l : list A),
@@ -324,9 +324,9 @@ Lemma keep_drops_nothing_thm : forall (A : Type) (l : list A),
   (length l = 296 -> firstn 272 (keep (mask P2 296) l) = keep (mask P2 296) l) /\
   (length l = 420 -> firstn 368 (keep (mask P3 420) l) = keep (mask P3 420) l).
 Proof. intros A l. split; [|split]; intros Hl.
-- exact (geometry_exact P1 488 368 HP1 l (proj1 counts) Hl).
-- exact (geometry_exact P2 296 272 HP2 l (proj1 (proj2 counts)) Hl).
-- exact (geometry_exact P3 420 368 HP3 l (proj1 (proj2 (proj2 (proj2 counts)))) Hl).
+- exact (geometry_exact P1 488 368 P1_nonempty l (proj1 mask_counts) Hl).
+- exact (geometry_exact P2 296 272 P2_nonempty l (proj1 (proj2 mask_counts)) Hl).
+- exact (geometry_exact P3 420 368 P3_nonempty l (proj1 (proj2 (proj2 (proj2 mask_counts)))) Hl).
 Qed.
 
 Lemma puncture_bytes_geometries_thm : forall inp prev : list N,
@@ -344,10 +344,10 @@ Lemma depuncture_geometries_thm : forall x prev : list Z,
   (length x = 368 -> length prev = 402 -> depuncture_bert x prev = (spread 0%Z (mask P2 402) x, 34)) /\
   (length x = 368 -> length prev = 420 -> depuncture_packet x prev = (spread 0%Z (mask P3 420) x, 52)).
 Proof. intros x prev. split; [|split; [|split]]; intros Hx Hp.
-- unfold depuncture_lsf. rewrite (geometry_depuncture P1 488 x prev HP1 Hp) by (rewrite (proj1 counts), Hx; apply le_n). rewrite Hx. reflexivity.
-- unfold depuncture_stream. rewrite (geometry_depuncture P2 296 x prev HP2 Hp) by (rewrite (proj1 (proj2 counts)), Hx; apply le_n). rewrite Hx. reflexivity.
-- unfold depuncture_bert. rewrite (geometry_depuncture P2 402 x prev HP2 Hp) by (rewrite (proj1 (proj2 (proj2 counts))), Hx; apply le_S, le_n). rewrite Hx. reflexivity.
-- unfold depuncture_packet. rewrite (geometry_depuncture P3 420 x prev HP3 Hp) by (rewrite (proj1 (proj2 (proj2 (proj2 counts)))), Hx; apply le_n). rewrite Hx. reflexivity.
+- unfold depuncture_lsf. rewrite (geometry_depuncture P1 488 x prev P1_nonempty Hp) by (rewrite (proj1 mask_counts), Hx; apply le_n). rewrite Hx. reflexivity.
+- unfold depuncture_stream. rewrite (geometry_depuncture P2 296 x prev P2_nonempty Hp) by (rewrite (proj1 (proj2 mask_counts)), Hx; apply le_n). rewrite Hx. reflexivity.
+- unfold depuncture_bert. rewrite (geometry_depuncture P2 402 x prev P2_nonempty Hp) by (rewrite (proj1 (proj2 (proj2 mask_counts))), Hx; apply le_S, le_n). rewrite Hx. reflexivity.
+- unfold depuncture_packet. rewrite (geometry_depuncture P3 420 x prev P3_nonempty Hp) by (rewrite (proj1 (proj2 (proj2 (proj2 mask_counts)))), Hx; apply le_n). rewrite Hx. reflexivity.
 Qed.
 
 Lemma depuncture_history_free_thm : forall (p : list N) (OUT : nat) (x prev prev' : list Z),
@@ -364,8 +364,8 @@ Lemma depuncture_puncture_thm : forall l prev1 prev2 : list Z,
   (length l = 420 -> length prev1 = 368 -> length prev2 = 420 ->
      fst (depuncture_packet (fst (puncture_packet l prev1)) prev2) = erase_unkept 0%Z (mask P3 420) l).
 Proof. intros l prev1 prev2. split; [|split; [|split]]; intros Hl H1 H2.
-- exact (geometry_roundtrip P1 488 368 HP1 l prev1 prev2 (proj1 counts) Hl H1 H2).
-- exact (geometry_roundtrip P2 296 272 HP2 l prev1 prev2 (proj1 (proj2 counts)) Hl H1 H2).
+- exact (geometry_roundtrip P1 488 368 P1_nonempty l prev1 prev2 (proj1 mask_counts) Hl H1 H2).
+- exact (geometry_roundtrip P2 296 272 P2_nonempty l prev1 prev2 (proj1 (proj2 mask_counts)) Hl H1 H2).
 - exact (bert_roundtrip l prev1 prev2 Hl H1 H2).
-- exact (geometry_roundtrip P3 420 368 HP3 l prev1 prev2 (proj1 (proj2 (proj2 (proj2 counts)))) Hl H1 H2).
+- exact (geometry_roundtrip P3 420 368 P3_nonempty l prev1 prev2 (proj1 (proj2 (proj2 (proj2 mask_counts)))) Hl H1 H2).
 Qed.
